@@ -344,6 +344,35 @@ fn double_push_starts() -> Vec<String> {
 /// they went up; the marked start is a different position from the repeated one; more than five
 /// occurrences are perfectly legal for the chain).
 fn emit_scripted_repetitions(prop: &str, sink: &mut Sink) {
+        // repetitions WHILE the halfmove clock crosses 100 and 150: knights shuffled from clocks just below the limits
+        // (fivefold must win over the merely claimable 50-move draw; strict/relaxed/force filters after every cycle)
+        for hm in [84u32, 90, 96, 134, 140] {
+            let fen = format!("1n2k3/8/8/8/8/8/8/1N2K3 w - - {hm} 50");
+            let b = owlchess::Board::from_fen(&fen).unwrap();
+            let mut c: Option<chain::Chain> = None;
+            sink.begin(&json!({"prop": prop, "scripted_clock": fen}));
+            let mut evs = vec![chain::exec(&mut c, &json!({"op": "new", "pos": proj::raw_json(b.raw())}))];
+            for _ in 0..6 {
+                for t in ["b1c3", "b8c6", "c3b1", "c6b8"] {
+                    evs.push(chain::exec(&mut c, &json!({"op": "push", "like": {"t": "uci", "text": proj::text_json(t)}})));
+                    evs.push(chain::exec(&mut c, &json!({"op": "calc"})));
+                }
+                for f in ["strict", "force", "relaxed"] {
+                    evs.push(chain::exec(&mut c, &json!({"op": "set_auto", "filter": f})));
+                    evs.push(chain::exec(&mut c, &json!({"op": "clear_outcome"})));
+                }
+            }
+            for _ in 0..10 {
+                evs.push(chain::exec(&mut c, &json!({"op": "pop"})));
+                evs.push(chain::exec(&mut c, &json!({"op": "calc"})));
+            }
+            if sink.room() < evs.len() {
+                sink.rotate();
+            }
+            for e in evs {
+                sink.emit(&e);
+            }
+        }
         // positions that recur within TWO plies: null moves (the documented TryUnchecked contract: not in check),
         // alone and between knight hops - repetitions while the halfmove clock is still tiny
         for (fen, seq) in [("4k3/8/8/8/8/8/8/4K2R w K - 0 1", vec!["0000"; 10]),
